@@ -936,8 +936,16 @@ func ruleMDASSIGN(c *Ctx) []Obligation {
 			ast.Inspect(n, func(m ast.Node) bool {
 				if call, ok := m.(*ast.CallExpr); ok {
 					if se, ok := unparen(call.Fun).(*ast.SelectorExpr); ok && strings.HasPrefix(se.Sel.Name, "Fprint") {
-						if id, ok := unparen(se.X).(*ast.Ident); ok && winfo.ObjectOf(id) == wi.fwVar {
+						if id, ok := unparen(se.X).(*ast.Ident); ok && wi.fwVar != nil && winfo.ObjectOf(id) == wi.fwVar {
 							found = true
+						}
+					}
+					// wrapper-less design: a write to the writer parameter itself
+					if wi.closure != nil {
+						if dst := isWriteCall(winfo, call); dst != nil {
+							if id, ok := unparen(dst).(*ast.Ident); ok && winfo.ObjectOf(id) == wi.wParam {
+								found = true
+							}
 						}
 					}
 				}
@@ -974,7 +982,7 @@ func ruleMDASSIGN(c *Ctx) []Obligation {
 				case se.Sel.Name == "AssignMetadataIDs" && aM == 0:
 					aM = call.Pos()
 				case strings.HasPrefix(se.Sel.Name, "Fprint") && firstWrite == 0:
-					if id, ok := unparen(se.X).(*ast.Ident); ok && wi.p.TypesInfo.ObjectOf(id) == wi.fwVar {
+					if id, ok := unparen(se.X).(*ast.Ident); ok && wi.fwVar != nil && wi.p.TypesInfo.ObjectOf(id) == wi.fwVar {
 						firstWrite = call.Pos()
 					}
 				}
